@@ -553,4 +553,10 @@ def build():
                         "the tile loop (every row exactly once, consecutive tile ids, metadata entry per tile) and the inventory call sites are "
                         "proved; reference closure and the structure of whole saved packages are a bounded stand-in with an independent "
                         "validator, which reports the open known finding F-C07-1 (null category_owner reference).")
+    # the save-time de-duplication of cell styles decides which image files get a metadata record: its key must tell apart every attribute a
+    # cell style stores (C15's complete structural obligation, shared here)
+    from contracts import C15 as _C15
+    for _name, _fn in _C15.build().ground:
+        if _name == "cell-style-key-reads-every-cell-attribute":
+            plan.ground.append((_name, _fn))
     return plan
